@@ -190,6 +190,54 @@ theorem ladderS (L M : Nat) (F G : Nat → Nat → Nat)
     ∀ i, i < M → rsum L (F i) % 2 = rsum L (F 0) % 2 :=
   ladder L M F G (fun i j => G i (wrapS L j)) (fun i _ => rsum_wrapS (G i) L) h
 
+/-- **Ladder with a `-1` wrap**: the `j`-th constraint of rung line `i` involves `F i j`,
+    `F (i+1) j`, `G i j` and `G i (j-1)` (cyclically). -/
+theorem ladderP (L M : Nat) (F G : Nat → Nat → Nat)
+    (h : ∀ i, i + 1 < M → ∀ j, j < L →
+      (F i j + F (i + 1) j + G i j + G i (wrapP L j)) % 2 = 0) :
+    ∀ i, i < M → rsum L (F i) % 2 = rsum L (F 0) % 2 :=
+  ladder L M F G (fun i j => G i (wrapP L j)) (fun i _ => rsum_wrapP (G i) L) h
+
+/-- **Row of cubes**: four lines `A1 … A4` of `L` sites and four lines of rungs `G1 … G4`; the
+    `a`-th constraint involves the `a`-th site of each line and the rungs `a`, `a + 1`
+    (cyclically) of each rung line.  If every constraint is even, the four lines together are
+    even. -/
+theorem ladder4 (L : Nat) (A1 A2 A3 A4 G1 G2 G3 G4 : Nat → Nat)
+    (h : ∀ a, a < L → (A1 a + A2 a + A3 a + A4 a + G1 a + G1 (wrapS L a) + G2 a + G2 (wrapS L a)
+      + G3 a + G3 (wrapS L a) + G4 a + G4 (wrapS L a)) % 2 = 0) :
+    (rsum L A1 + rsum L A2 + rsum L A3 + rsum L A4) % 2 = 0 := by
+  have he := rsum_even L h
+  have e : rsum L (fun a => A1 a + A2 a + A3 a + A4 a + G1 a + G1 (wrapS L a) + G2 a
+        + G2 (wrapS L a) + G3 a + G3 (wrapS L a) + G4 a + G4 (wrapS L a)) =
+      rsum L A1 + rsum L A2 + rsum L A3 + rsum L A4 + rsum L G1 + rsum L (fun a => G1 (wrapS L a))
+        + rsum L G2 + rsum L (fun a => G2 (wrapS L a)) + rsum L G3
+        + rsum L (fun a => G3 (wrapS L a)) + rsum L G4 + rsum L (fun a => G4 (wrapS L a)) := by
+    rw [rsum_add, rsum_add, rsum_add, rsum_add, rsum_add, rsum_add, rsum_add, rsum_add, rsum_add,
+      rsum_add, rsum_add]
+  rw [e, rsum_wrapS G1, rsum_wrapS G2, rsum_wrapS G3, rsum_wrapS G4] at he
+  omega
+
+/-- **Plaquette relations imply rectangle relations**: if `U j k + U (j+1) k + U j (k+1) +
+    U (j+1) (k+1)` is even for every plaquette of an `A × B` grid, then so is
+    `U j k + U j 0 + U 0 k + U 0 0` for every site. -/
+theorem rect (A B : Nat) (U : Nat → Nat → Nat)
+    (h : ∀ j k, j + 1 < A → k + 1 < B →
+      (U j k + U (j + 1) k + U j (k + 1) + U (j + 1) (k + 1)) % 2 = 0) :
+    ∀ j k, j < A → k < B → (U j k + U j 0 + U 0 k + U 0 0) % 2 = 0 := by
+  intro j k hj hk
+  have hD : ∀ j, j + 1 < A → (U j k + U (j + 1) k) % 2 = (U j 0 + U (j + 1) 0) % 2 := by
+    intro j hj
+    exact chain B (fun k => U j k + U (j + 1) k) (fun k hk => by
+      have := h j k hj hk
+      show (U j k + U (j + 1) k + (U j (k + 1) + U (j + 1) (k + 1))) % 2 = 0
+      omega) k hk
+  have hE := chain A (fun j => U j k + U j 0) (fun j hj => by
+    have := hD j hj
+    show (U j k + U j 0 + (U (j + 1) k + U (j + 1) 0)) % 2 = 0
+    omega) j hj
+  have hE' : (U j k + U j 0) % 2 = (U 0 k + U 0 0) % 2 := hE
+  omega
+
 end Panqec.Lat2D
 
 namespace Panqec.Cubic3D
